@@ -157,3 +157,102 @@ def warmup_episode(rw, scripts, kind=None, obj=1):
     if ending == "finalize":
         ops.append(["finalize"])
     return {"obj": obj, "new": True, "kind": k, "via": "LibRDEngine", "script": len(scripts) - 1, "ops": ops}
+
+
+# ------------------------------------------------------------------------------------------------ retuned descriptions
+_D_KEYS = {"D", "diff_coef", "diffusion_coefficient", "diff coef", "diffusion coefficient"}
+_DENS_KEYS = {"density", "concentration", "dens", "conc", "C"}
+_K_KEYS = {"k+", "kf", "k-", "kr"}
+
+
+def _scaled(v, f):
+    """a rendered quantity (number, "number unit" text, per-environment dictionary) multiplied by f"""
+    if isinstance(v, bool):
+        return v
+    if isinstance(v, (int, float)):
+        return float(v) * f
+    if isinstance(v, str):
+        head, _, tail = v.partition(" ")
+        try:
+            return "%r %s" % (float(head) * f, tail) if tail else "%r" % (float(head) * f)
+        except ValueError:
+            return v
+    if isinstance(v, dict):
+        if "__uv__" in v:
+            return {"__uv__": _scaled(v["__uv__"], f)}
+        return {k: _scaled(x, f) for k, x in v.items()}
+    return v
+
+
+def retuned_entry(entry, rs):
+    """the same description with other numbers in the same places: rate constants, diffusion coefficients, densities,
+    explicit state (doubled, whole numbers stay whole), fewer requested times, another seed and sampling interval.
+    Structure, stoichiometry, geometry, chemostat flags and every unit stay what they are. Used as the EARLIER content of a
+    live object that the caller then re-assigns, property by property, to the content of `entry`."""
+    import copy
+    e = copy.deepcopy(entry)
+    sysd = e["system"]
+    nkey = "network" if "network" in sysd else "rdnetwork"
+    nd = sysd[nkey]
+    changed = []        # which properties differ (what the caller will re-assign, and nothing else)
+    for si_, sd in enumerate(nd["species"]):
+        for k in list(sd):
+            if (k in _D_KEYS or k in _DENS_KEYS) and rs.chance(0.5):
+                new = _scaled(sd[k], rs.choice([0.5, 2.0, 3.0]))
+                if new != sd[k]:
+                    sd[k] = new
+                    changed.append(["species", si_, "D" if k in _D_KEYS else "density"])
+    for ri_, rd in enumerate(nd["reactions"]):
+        for k in list(rd):
+            if k in _K_KEYS and rs.chance(0.5):
+                new = _scaled(rd[k], rs.choice([0.25, 0.5, 2.0, 4.0]))
+                if new != rd[k]:
+                    rd[k] = new
+                    changed.append(["reaction", ri_, "kf" if k in ("k+", "kf") else "kr"])
+    if "state" in sysd and rs.chance(0.5):
+        st = sysd["state"]
+        if isinstance(st, dict):
+            st["value"] = [2.0 * float(v) for v in st["value"]]
+        else:
+            sysd["state"] = [2.0 * float(v) for v in st]
+        changed.append(["state"])
+    elif "state" not in sysd and any(c[0] == "species" and c[2] == "density" for c in changed):
+        changed.append(["state"])       # the default state follows the densities: assigned explicitly by the caller
+    kw = e["script"]
+    ts = kw.get("t_sample")
+    if isinstance(ts, list) and len(ts) >= 2 and rs.chance(0.6):
+        kw["t_sample"] = ts[:max(1, len(ts) - rs.randint(1, 2))]
+        changed.append(["t_sample"])
+    if kw.get("rng_seed") is not None and rs.chance(0.6):
+        kw["rng_seed"] = rs.bits(31)
+        changed.append(["rng_seed"])
+    if "sampling_interval" in kw and rs.chance(0.5):
+        kw["sampling_interval"] = _scaled(kw["sampling_interval"], 2.0)
+        changed.append(["sampling_interval"])
+    e["changed"] = rs.shuffle(changed)
+    e["phys"] = dict(entry["phys"])
+    e["retuned_from_main"] = True
+    return e
+
+
+def bc_flipped_entry(entry, rs):
+    """the same grid model with one boundary condition flipped (same dimensions): None when there is nothing to flip"""
+    import copy
+    spec = entry["phys"]["spec"]
+    sp = spec["space"]
+    if sp["type"] != "grid":
+        return None
+    dims = [sp["w"], sp["h"], sp["d"]]
+    axes = [k for k in range(3) if dims[k] >= 2]
+    if not axes:
+        return None
+    k = rs.choice(axes)
+    e = copy.deepcopy(entry)
+    new = "reflecting" if sp["bc"][k] == "periodical" else "periodical"
+    e["phys"]["spec"]["space"]["bc"][k] = new
+    sysd = e["system"]
+    skey = "space" if "space" in sysd else "rdspace"
+    bcd = dict(sysd[skey].get("boundary_conditions", {}))
+    bcd["xyz"[k]] = new
+    sysd[skey]["boundary_conditions"] = bcd
+    return e
